@@ -234,7 +234,7 @@ FAULT_RE = re.compile(r" => fault api:(\w+)")
 NAMED_ERRORS = {"OutputOverflow", "HttpParseTooManyHeaders"}
 
 
-AFTER_READ_ERROR = {"bread", "cread", "canproceed", "cended", "boundary", "mode", "proceed", "proceed!", "stopb"}
+AFTER_READ_ERROR = {"bread", "cread", "canproceed", "cended", "boundary", "mode", "proceed", "proceed!", "stopb", "cboundary", "cstopb"}
 
 
 def canon(kw, line):
@@ -245,6 +245,13 @@ def canon(kw, line):
     if m and m.group(1) not in NAMED_ERRORS:
         # "is refused" / "an error": the properties name two error kinds only (output overflow, too many headers)
         line = line[:m.start()] + " => fault api:*" + line[m.end():]
+    if kw == "hmap" and " => map " in line:
+        # headers_map(): C13 says which inherited names are absent, C16 that the caller's names are present (both
+        # judged by the oracle); how a name with several values is presented is not constrained — names only
+        head, rest = line.split(" => map ", 1)
+        body, _, st = rest.rpartition(" @")
+        w = body.split(" ")
+        return f"{head} => map names {' '.join(sorted(set(w[1::2])))} @{st}"
     if kw == "reason" and " => str " in line:
         head, rest = line.split(" => str ", 1)
         txt, _, st = rest.rpartition(" @")
@@ -262,11 +269,12 @@ def compare(pid, impl_lines, model_lines):
     ci = -1
     prev_state = "none"
     unspecified = None
+    head_out = False
     n = min(len(impl_lines), len(model_lines))
     for i in range(n):
         a, b = impl_lines[i], model_lines[i]
         if a.startswith("case "):
-            ci += 1; prev_state = "none"; unspecified = None; continue
+            ci += 1; prev_state = "none"; unspecified = None; head_out = False; continue
         if a.startswith("meta "):
             continue
         if unspecified == "all" or (unspecified == "body" and opkw(a) in AFTER_READ_ERROR):
@@ -281,6 +289,15 @@ def compare(pid, impl_lines, model_lines):
         if b.endswith(" #out-of-class"):
             ooc += 1; continue
         kw = opkw(a)
+        if kw in ("cwrite", "cbwrite") and " => bytes " in a:
+            o = a.split(" => bytes ", 1)[1].split(" ")
+            if len(o) > 1 and (o[1].startswith("#") or o[1].split(" ")[0].endswith("0d0a0d0a")):
+                head_out = True
+        if kw == "cinto" and not head_out:
+            # turning a call whose head was never (completely) written into its receive side: no property says
+            # whether that is allowed; what it and the calls after it return is not compared
+            unspecified = "all"
+            continue
         if proj is not None and kw not in proj:
             continue
         if pstates is not None and issued_in in FLOW_STATES and issued_in not in pstates:
